@@ -491,6 +491,10 @@ class Recorder(object):
         """o = dict(op=..., i=..., ...) -> event"""
         name = o['op']
         i = o.get('i', 1)
+        if getattr(self, '_skip', None) is not None:
+            skip, self._skip = self._skip, None
+            if all(o.get(k) == v for k, v in skip.items()) and 'mirror' not in o:
+                return None
         f = self.inst[i - 1]
         mark = len(stubs.LOG)
         ev = dict(o)
@@ -504,11 +508,23 @@ class Recorder(object):
                 ent = self.args[o['a'] - 1]
                 a, kw = ent['args'], ent['kw']
                 stubs.LAST_EXC[0] = None
+                if o.get('snap'):
+                    # dill round trip taken by ANOTHER thread while this call is inside the wrapped function:
+                    # the clone event is emitted first (state as observed at that moment), then this call's event
+                    stubs.DURING[0] = lambda: self._inflight_clone(i, o['snap'])
                 try:
                     r = f(*a, **kw)
                     ev['ret'] = self.ret_code(o['a'], r)
                 except BaseException as e:
                     ev['exc'] = 'same' if e is stubs.LAST_EXC[0] else type(e).__name__
+                if o.get('snap'):
+                    pending, stubs.DURING[0] = stubs.DURING[0], None
+                    ev.pop('snap')
+                    if pending is not None:      # the call never reached the function: take an ordinary snapshot afterwards
+                        self._emit(ev, mark)         # (the copy then already contains this call: its catch-up call is dropped)
+                        r = self.op({'op': 'clone', 'i': i, 'j': o['snap']})
+                        self._skip = {'op': 'call', 'a': o['a'], 'i': o['snap']}
+                        return r
             elif name == 'lookup':
                 ent = self.args[o['a'] - 1]
                 a, kw = ent['args'], ent['kw']
@@ -564,6 +580,30 @@ class Recorder(object):
                 ev['exc'] = type(e).__name__
         return self._emit(ev, mark)
 
+    def _inflight_clone(self, i, j):
+        import threading
+        import dill
+        box = {}
+
+        def work():
+            try:
+                box['g'] = dill.loads(dill.dumps(self.inst[i - 1]))
+            except BaseException as e:
+                box['exc'] = type(e).__name__
+        t = threading.Thread(target=work)
+        t.daemon = True
+        t.start()
+        t.join(30)
+        ev = {'op': 'clone', 'i': i, 'j': j, 'inflight': True}
+        if t.is_alive():
+            ev['exc'] = 'Blocked'
+        elif 'exc' in box:
+            ev['exc'] = box['exc']
+        else:
+            self.inst[j - 1] = box['g']
+            self.icfg[j - 1] = self.icfg[i - 1]
+        self._emit(ev, len(stubs.LOG))
+
     def _real(self, k):
         for r, kk in self.table:
             if kk == k:
@@ -585,26 +625,82 @@ def _jsonable(x):
     return repr(x)
 
 
+STALL_S = float(os.environ.get('VERIF_STALL_S', '40'))
+_blocked_seen = [0]       # per worker process: after two blocked sequences the patience for further ones is short
+
+
 def run_sequence(cfg, ops, workdir):
     """cfg: module, alg, maxsize, how, purge, backend, keymap, nx, ni, na, unkey
     ops: list of op dicts (instance 1 is decorated first automatically).  Returns a trace dict or
-    None when the configuration cannot be keyed at all (reported in meta)."""
+    None when the configuration cannot be keyed at all (reported in meta).
+
+    The whole sequence runs in ONE helper thread while the caller watches it: an operation of the library that
+    blocks for ever (no event, no evaluation for STALL_S seconds) is recorded as an event with exc = "Blocked"
+    instead of hanging the check; the sequence ends there."""
+    import threading
     del stubs.LOG[:]
     r = Recorder(cfg, workdir)
     icfg = {'alg': cfg['alg'], 'maxsize': cfg.get('maxsize', 'default'), 'how': cfg.get('how', 'kw'),
             'purge': cfg.get('purge')}
-    r.decorate(1, icfg, cfg.get('backend', 'plain'), first=True)
-    for o in ops:
-        o = dict(o)
-        if o['op'] == 'decorate' and 'icfg' not in o:
-            o['icfg'] = icfg
-        while o['op'] == 'set_archive' and o['x'] > len(r.slots):
-            # create further archives on demand (in-memory dict archives)
-            c, slot = r._new_archive('dictarch', 'x%d' % (len(r.slots) + 1))
-            r.slots.append(slot)
-        if r.inst[0] is None:
+    state = {'cur': None, 'err': None, 'n': 0}
+
+    def body():
+        try:
+            r.decorate(1, icfg, cfg.get('backend', 'plain'), first=True)
+            for o in ops:
+                if state.get('abandoned'):
+                    return
+                o = dict(o)
+                if o['op'] == 'decorate' and 'icfg' not in o:
+                    o['icfg'] = icfg
+                while o['op'] == 'set_archive' and o['x'] > len(r.slots):
+                    # create further archives on demand (in-memory dict archives)
+                    c, slot = r._new_archive('dictarch', 'x%d' % (len(r.slots) + 1))
+                    r.slots.append(slot)
+                if r.inst[0] is None:
+                    break
+                state['cur'] = o
+                state['n'] += 1
+                r.op(o)
+                state['cur'] = None
+        except BaseException as e:      # recorder failure: re-raised in the caller
+            state['err'] = e
+
+    t = threading.Thread(target=body)
+    t.daemon = True
+    t.start()
+    last, since = None, 0.0
+    while True:
+        t.join(0.5 if since < 2 else 5.0)
+        if not t.is_alive():
             break
-        r.op(o)
+        progress = (state['n'], len(r.events), len(stubs.LOG))
+        if progress != last:
+            last, since = progress, 0.0
+        else:
+            since += 0.5 if since < 2 else 5.0
+        if since >= (STALL_S if _blocked_seen[0] < 2 else 6.0):
+            _blocked_seen[0] += 1
+            state['abandoned'] = True
+            o = state['cur'] or {'op': 'decorate', 'i': 1}
+            prev = r.events[-1] if r.events else None
+            if prev is None or r.nk is None:
+                raise common.MachineryError('the library blocked before the first event of %r' % (cfg,))
+            ev = dict(o)
+            ev['i'] = o.get('i', 1)
+            ev.update({'ret': 0, 'exc': 'Blocked', 'ev': []})
+            if 'mirror' in ev:
+                ev['mret'], ev['mexc'] = prev.get('ret', 0), prev.get('exc', 'none')
+            if ev['op'] == 'clear':
+                ev['keep'] = bool(o.get('keep'))
+            for k in ('mem', 'cur', 'info', 'archs'):
+                ev[k] = prev[k]
+            ev.pop('snap', None)
+            r.events.append(ev)
+            r.notes.append('operation %d blocked for more than %ss' % (state['n'], STALL_S))
+            break
+    if state['err'] is not None:
+        raise state['err']
     t = r.trace()
     t['meta']['ops'] = _jsonable(ops)
     return t
